@@ -122,6 +122,17 @@ def _run_law(task, closed_form, input_constraints, max_cells=400, outcome_key=No
     def law_pre(ctx):
         ctx.law_mode = True
 
+    # which library functions does this harness enter (one recorded path)
+    try:
+        from sx import env as _env
+        rec = _env.FuncRecorder()
+        with rec:
+            for _ in engine.explore_raw(hname, params, pre=law_pre, max_paths=1):
+                break
+        res["functions"] = rec.result()
+    except BaseException:
+        pass
+
     for ctx, ex, outcome, status in engine.explore_raw(hname, params, pre=law_pre, canary=None, deadline=deadline, max_paths=task.get("max_paths", 20000)):
         res["paths"] += 1
         res["queries"] += ex.queries
